@@ -8,7 +8,8 @@ ID = "C01"
 LEVEL = "exploration"
 RULE = ("random statement sequences (all term kinds, generalised positions, nested quoted triples) x "
         "{TRIPLES,QUADS,GRAPHS} x frame sizes x presets >= need x delimited/non-delimited x generic "
-        "serializer entry points, read back with parse_jelly_flat, parse_jelly_to_graph and sink.parse; "
+        "serializer entry points (generator entry points also with the frames batched in a list before writing; one long stream per "
+        "shard whose vocabulary exceeds the DEFAULT 4000/150/32 tables), read back with parse_jelly_flat, parse_jelly_to_graph and sink.parse; "
         "oracle: out == in as sequences (xsd:string == plain). Non-trivial: >= 2 statements and the written "
         "stream contains >= 1 eviction, repeated-term elision or zero-form id (counted by the reference "
         "decoder); distinct by hash of (config, statements).")
@@ -76,9 +77,43 @@ def _check(cfg, stmts):
     return None if r.get("ok") else r
 
 
+def long_case(ctx, rng):
+    """One long stream per shard: vocabulary larger than the DEFAULT tables (4000 names / 150 prefixes / 32 datatypes)."""
+    n = 4000 if ctx.tier == "quick" else 30000
+    phys = rng.choice([1, 2, 3])
+    nss = [f"http://ns{k}.example/p/" for k in range(220)]
+    names = [f"l{k}" for k in range(5200)]
+    dts = [f"http://ex.org/dt/{k}" for k in range(45)]
+
+    def iri():
+        return ("iri", rng.choice(nss[: rng.choice([3, 220])]) + rng.choice(names[: rng.choice([50, 5200])]))
+    stmts = []
+    g = iri()
+    for k in range(n):
+        o = iri() if rng.random() < .6 else ("lit", str(k % 97), None, rng.choice(dts)) if rng.random() < .7 else ("lit", "x", "en", None)
+        st = [iri() if rng.random() < .5 or not stmts else stmts[-1][0], iri(), o]
+        if phys != 1:
+            if rng.random() < .02:
+                g = iri()
+            st.append(g)
+        stmts.append(tuple(st))
+    cfg = {"integration": "generic", "physical": phys, "entry": rng.choice(["flat_to_file", "stream_frames_gen"]),
+           "frame_size": rng.choice([250, 1000]), "preset": rng.choice([(4000, 150, 32), (4000, 150, 32), (128, 16, 8)]),
+           "delimited": True, "logical": pj.FLAT_LOGICAL[phys], "generalized": True, "rdf_star": True}
+    r = roundtrip(cfg, stmts, readers=("flat",))
+    ctx.observe("long-streams")
+    ctx.observe("roundtrips-compared")
+    if not r.get("ok"):
+        r.update({"cfg": cfg, "stmts": T.to_json(stmts[:50]), "note": "long stream; witness truncated to 50 statements",
+                  "case": [ctx.shard, "long"]})
+        ctx.violation(r)
+    ctx.case(("long", ctx.shard, n, phys), True, sample={"kind": "long-stream", "statements": n, "cfg": cfg})
+
+
 def run_shard(ctx):
     monitors.arm()
     max_len = 60 if ctx.tier == "quick" else 400
+    long_case(ctx, ctx.rng("long"))
     i = 0
     while not ctx.out_of_time():
         rng = ctx.rng(i)
